@@ -95,6 +95,7 @@ def fault_calls():
     from unyt import unyt_array, unyt_quantity
 
     s2 = lambda t: unyt_array(np.ones(t.q.shape), "s")  # noqa: E731  other dimension
+    a2 = lambda t: unyt_array(np.full(t.q.shape, 2.0), t.q.units)  # noqa: E731  an operand in the target's unit that is not the target
     return [
         ("convert_to_units(other dimension)", "dimension", lambda t: t.q.convert_to_units("s")),
         ("convert_to_units(unknown unit)", "unknown-unit", lambda t: t.q.convert_to_units("flurbs")),
@@ -126,6 +127,18 @@ def fault_calls():
         ("np.fill_diagonal(x, other dimension)", "dimension", lambda t: np.fill_diagonal(t.q.reshape(1, -1) if t.q.ndim < 2 else t.q, unyt_quantity(1.0, "s")) if t.q.ndim >= 2 else (_ for _ in ()).throw(TypeError("n/a"))),
         ("x.fill(other dimension)", "dimension", lambda t: t.q.fill(unyt_quantity(1.0, "s"))),
         ("np.clip(x, lo other dimension, None, out=x)", "dimension", lambda t: np.clip(t.q, unyt_quantity(0.0, "s"), unyt_quantity(1.0, "s"), out=t.q)),
+        # a separate out= buffer (the target) that is none of the operands: a refused call must leave it as it was
+        ("np.add(a, other dimension, out=target)", "dimension", lambda t: np.add(a2(t), s2(t), out=t.q)),
+        ("np.add(a, other dimension, out=(target,))", "dimension", lambda t: np.add(a2(t), s2(t), out=(t.q,))),
+        ("np.subtract(other dimension, a, out=target)", "dimension", lambda t: np.subtract(s2(t), a2(t), out=t.q)),
+        ("np.maximum(a, other dimension, out=target)", "dimension", lambda t: np.maximum(a2(t), s2(t), out=t.q)),
+        ("np.hypot(a, other dimension, out=target)", "dimension", lambda t: np.hypot(a2(t), s2(t), out=t.q)),
+        ("np.power(a, dimensional exponent, out=target)", "exponent", lambda t: np.power(a2(t), unyt_quantity(2.0, "s"), out=t.q)),
+        ("np.multiply(degC, 2, out=target)", "offset", lambda t: np.multiply(unyt_array(np.ones(t.q.shape), "degC"), 2.0, out=t.q)),
+        ("np.multiply(dB, a, out=target)", "offset", lambda t: np.multiply(unyt_array(np.ones(t.q.shape), "dB"), a2(t), out=t.q)),
+        ("np.sqrt(degF, out=target)", "offset", lambda t: np.sqrt(unyt_array(np.ones(t.q.shape), "degF"), out=t.q)),
+        ("np.clip(a, lo other dimension, hi, out=target)", "dimension", lambda t: np.clip(a2(t), unyt_quantity(0.0, "s"), unyt_quantity(1.0, "s"), out=t.q)),
+        ("np.add(a, other dimension, out=target, where=True)", "dimension", lambda t: np.add(a2(t), s2(t), out=t.q, where=True)),
         ("x *= x (offset scale)", "offset", lambda t: t.q.__imul__(2.0) if t.q.units.base_offset else (_ for _ in ()).throw(TypeError("n/a"))),
         ("x /= 2 (offset scale)", "offset", lambda t: t.q.__itruediv__(2.0) if t.q.units.base_offset else (_ for _ in ()).throw(TypeError("n/a"))),
         ("x //= other dimension ... (allowed: different dims divide)", "none", None),
